@@ -85,3 +85,13 @@ check("C20", "exploration",
       "(domain form, target, target) triples over 8 domain forms x 10 hosts enumerated.", TRUST,
       "deterministic simulation: seeded + enumerated connection histories over process-wide state, reference-jar oracle",
       "DESIGN.md section 6 C20")
+check("C12", "exploration",
+      "Part A enumerates every short-write composition for frames of 6..12 bytes and samples patterns up to 70 kB; parts "
+      "B/C run 2..4 real sender / receiver threads on one connection under the seeded scheduler (cooperative, "
+      "probabilistic line pre-emption, PCT depth 1..3) plus a depth-1 sweep forcing one pre-emption at every traced "
+      "line of a reference run. Oracles: wire decodes into exactly the frames sent, per-thread order kept; every message "
+      "delivered intact to exactly one receiver; pongs = pings; all receivers end with the connection-closed exception. "
+      "Schedules are sampled, not enumerated up to a pre-emption bound.",
+      TRUST + " Pre-emption granularity is the source line inside websocket/*.py.",
+      "deterministic simulation: seeded scheduler over baton-passed threads (coop/prob/PCT + depth-1 at(k) sweep), exhaustive short-write fault patterns",
+      "DESIGN.md section 6 C12")
